@@ -615,6 +615,35 @@ func init() {
 			enumV3Base(r, props{scoreLevel: 2}, st)
 			enumV3Temporal(r, props{scoreLevel: 2}, st, []int{2}, []map[string]string{{}})
 		})
+		r.Phase("modified_scope_only_vectors", func() {
+			// every base vector x MS in {omitted, X, U, C} with no other environmental metric: the
+			// base and temporal scores are queried first (evalDecoded), then the environmental one
+			bases := allTok(3, 0)
+			var n int64
+			safeParallel(r, len(bases), func(i int) {
+				for vi, verLabel := range spec.V3Versions {
+					for mi, ms := range []string{"", "X", "U", "C"} {
+						tok := copyTok(bases[i])
+						if ms != "" {
+							tok["MS"] = ms
+						}
+						if (i+vi+mi)%3 == 0 {
+							tok["E"], tok["RL"] = "P", "T"
+						}
+						c := &dcase{ver: 3, level: 2, tok: tok, verLabel: verLabel}
+						c.s = canonicalWritten(3, 2, verLabel, tok)
+						evalDecoded(r, P, st, c)
+						atomic.AddInt64(&n, 1)
+					}
+				}
+			})
+			r.Add("evaluations", n)
+			r.Add("modified_scope_only_vectors", n)
+		})
+		r.Phase("token_orders_with_explicit_X", func() {
+			G := &gprops{decOn: true, dec: props{scoreLevel: 2}}
+			permutationsV3(r, G, &gstats{}, []int{2}, thorough)
+		})
 		r.Phase("effective_x_temporal", func() { envEffective(r, P, st, true) })
 		r.Phase("fallback_lattices", func() {
 			if thorough {
